@@ -20,6 +20,7 @@ func checkC18(c *an.Ctx) {
 	c.Rule("C18.4", "depends_on → stage (E3/E5): after the last stage of a pipeline was added, every element of every stage's DependsOn itself (not a transformed copy) is looked up in the node set of the same graph; absent → non-nil error that fails the load")
 	c.Rule("C18.5", "inclusion cycles (E3/E7): on every success path of buildFromDefinition a recursive walk over Stage.Pipeline links runs for every pipeline, with a mark set allocated per starting pipeline that describes the current path (un-marked on every cycle-free exit), reports a revisit as a non-nil error, and that error fails the load")
 	c.Rule("C18.6", "consumers are guarded (E3/E5): the recursive consumers of Stage.Pipeline (scheduler, graph drawing) take their graphs from Config.Pipelines, which passed C18.4/C18.5; no function that follows Stage.Pipeline recursively can run during a load before the inclusion walk has been called")
+	c.Rule("C18.8", "verdicts survive (E7): no deferred function of internal/config overwrites the named error result of its function with a value that may be nil — allowed are freshly built errors (the recover pattern) and stores made only while the result is still nil; a clean-up that assigns its own outcome to err turns every rejection reported through that function into an acceptance")
 	c.Rule("C18.7", "a rejected configuration is rejected with an error, not with a hang (E8): no channel operation, Cond.Wait or polling loop is synchronously reachable from Loader.Load / LoadGlobalConfig unless it has an unconditional waker (the rule of C15.10 on the two entry points that accept or reject a configuration)")
 	c.NotDecided = append(c.NotDecided, "completeness of a validator beyond its decision row (e.g. one that inspects only part of what it ranges over is caught only if the range/lookup provenance changes)", "graphs built directly through the scheduler API, bypassing internal/config")
 	p := c.P
@@ -378,6 +379,7 @@ func checkC18(c *an.Ctx) {
 		}
 	}
 
+	verdictSurvives(c, "C18.8")
 	dependsOnValidator(c, bp, stageLoop, "C18.4")
 	inclusionCycles(c, bfd, "C18.5")
 
@@ -806,4 +808,111 @@ func paramIndexOf(fn *ssa.Function, v ssa.Value) int {
 		}
 	}
 	return -1
+}
+
+// verdictSurvives: see C18.8.
+func verdictSurvives(c *an.Ctx, rule string) {
+	p := c.P
+	n := 0
+	for _, fn := range p.Funcs {
+		if !inPkgs("internal/config")(fn) || fn.Blocks == nil || fn.Parent() != nil {
+			continue
+		}
+		res := fn.Signature.Results()
+		names := map[string]bool{}
+		for i := 0; i < res.Len(); i++ {
+			if an.IsErrorType(res.At(i).Type()) && res.At(i).Name() != "" && res.At(i).Name() != "_" {
+				names[res.At(i).Name()] = true
+			}
+		}
+		if len(names) == 0 {
+			continue
+		}
+		an.EachInstr(fn, func(in ssa.Instruction) {
+			d, ok := in.(*ssa.Defer)
+			if !ok {
+				return
+			}
+			mc, ok := d.Call.Value.(*ssa.MakeClosure)
+			if !ok {
+				return
+			}
+			clo, ok := mc.Fn.(*ssa.Function)
+			if !ok {
+				return
+			}
+			for i, b := range mc.Bindings {
+				al, ok := b.(*ssa.Alloc)
+				if !ok || !names[al.Comment] || !an.IsErrorType(an.Deref(al.Type())) || i >= len(clo.FreeVars) {
+					continue
+				}
+				fv := clo.FreeVars[i]
+				an.EachInstr(clo, func(x ssa.Instruction) {
+					st, ok := x.(*ssa.Store)
+					if !ok || st.Addr != ssa.Value(fv) {
+						return
+					}
+					n++
+					key := an.Short(fn) + ":deferred-store(" + al.Comment + ")"
+					// always a fresh error?
+					fresh := true
+					srcs := an.Sources(st.Val)
+					if len(srcs) == 0 {
+						fresh = false
+					}
+					for _, src := range srcs {
+						if mi, ok := src.(*ssa.MakeInterface); ok {
+							if _, isPtr := mi.X.Type().Underlying().(*types.Pointer); isPtr {
+								if _, isAlloc := mi.X.(*ssa.Alloc); isAlloc {
+									continue
+								}
+							}
+							fresh = false
+							continue
+						}
+						call, ok := src.(*ssa.Call)
+						if !ok {
+							fresh = false
+							continue
+						}
+						switch an.ShortCallee(&call.Call) {
+						case "fmt.Errorf", "errors.New":
+						default:
+							fresh = false
+						}
+					}
+					// or only while no error has been recorded yet
+					onlyIfNil := false
+					for _, g := range an.Guards(st.Block()) {
+						bo, ok := g.Cond.(*ssa.BinOp)
+						if !ok || (bo.Op != token.EQL && bo.Op != token.NEQ) {
+							continue
+						}
+						x, y := bo.X, bo.Y
+						if an.IsNilConst(x) {
+							x, y = y, x
+						}
+						ld, ok := x.(*ssa.UnOp)
+						if !ok || ld.Op != token.MUL || ld.X != ssa.Value(fv) || !an.IsNilConst(y) {
+							continue
+						}
+						if (bo.Op == token.EQL) == g.Outcome {
+							onlyIfNil = true
+						}
+					}
+					switch {
+					case fresh:
+						c.OK(rule, key, st.Pos(), "the deferred function stores a freshly built error")
+					case onlyIfNil:
+						c.OK(rule, key, st.Pos(), "the deferred function stores only while the result is still nil")
+					default:
+						c.Bad(rule, key, st.Pos(), "a deferred function of %s assigns %s to the named result %s, which may be nil, without testing that no error was recorded: the error the function was returning is replaced, and a configuration it rejected is accepted", an.Short(fn), an.Prov(st.Val), al.Comment)
+					}
+				})
+			}
+		})
+	}
+	if n == 0 {
+		c.OK(rule, "internal/config:deferred-stores", token.NoPos, "no deferred function of internal/config writes a named error result")
+	}
 }
